@@ -180,9 +180,9 @@ theorem unseen_lt (h : Heap) (sofar : List Nat) (a : Nat) (ha : a < h.length)
   apply filter_length_lt (a := a)
   · intro x hx
     simp only [List.contains_cons, Bool.not_eq_true', Bool.or_eq_false_iff] at hx
-    simp [hx.2]
+    rw [hx.2]; rfl
   · exact List.mem_range.2 ha
-  · simp [hs]
+  · rw [hs]; rfl
   · simp
 
 /-- the `for item in nxt:` loop of the `'X'` branch.  `nxt` grows while index `i` walks it;
@@ -296,11 +296,12 @@ inductive MErr where
 /-- `get_handler('assign', dest)` of the default registry -/
 inductive AssignH where | setitem | setSeq | setattr | none deriving DecidableEq, Repr
 
+/-- dict → setitem, list → `_set_sequence_item`, tuple → `False` (registered as not assignable),
+    everything else → setattr (which fails on objects without settable attributes) -/
 def assignH (cs : Classes) (c : String) : AssignH :=
   if isA cs c "dict" then .setitem
   else if isA cs c "list" then .setSeq
-  else if isA cs c "tuple" || isA cs c "set" || isA cs c "frozenset" || isA cs c "str" || isA cs c "int"
-      || isA cs c "float" || isA cs c "bool" then .none
+  else if isA cs c "tuple" then .none
   else .setattr
 
 def setAssoc {α} [BEq α] (k : α) (v : Val) : List (α × Val) → List (α × Val)
